@@ -51,6 +51,10 @@ def run(ctx):
         seqs = nc.repertoire(ctx.rng, n, maxmut=k + 1, maxlen=16 if k < 3 else 12)
         inp = nc.make_inp("symdel", "lev", k, seqs)
         sessions.append(nc.build_session(sid, inp, api=("nearest_neighbor", "symdel")[sid % 2]))
+    for r in range(1 if ctx.quick else 6):        # an expanded clone: dozens of exact copies and their relatives
+        sid += 1
+        seqs, _ = nc.expanded_clone(ctx.rng, copies=ctx.rng.randint(66, 80))
+        sessions.append(nc.build_session(sid, nc.make_inp("symdel", "lev", 1 + r % 2, seqs), api=("nearest_neighbor", "symdel")[sid % 2], with_internal=False))
     npx.count_sessions(ctx, sessions)
     verdicts = nc.validate_sessions(ctx, sessions)
     npx.judge_sessions(ctx, sessions, verdicts)
